@@ -1234,13 +1234,20 @@ impl<'l> CelCompiler<'l> {
             Some(TokenWithLoc {
                 token: Token::IntLit(val),
                 loc,
-            }) => Ok((
-                CompiledProg::with_const((val as i64).into()),
-                AstNode::new(
-                    Primary::Literal(LiteralsAndKeywords::IntegerLit(val as i64)),
-                    loc,
-                ),
-            )),
+            }) => {
+                // an int literal that does not fit an int64 is rejected instead of wrapping around
+                let val = i64::try_from(val).map_err(|_| {
+                    CelError::from(
+                        SyntaxError::from_location(loc.start())
+                            .with_message(format!("Integer literal {} is out of range", val)),
+                    )
+                })?;
+
+                Ok((
+                    CompiledProg::with_const(val.into()),
+                    AstNode::new(Primary::Literal(LiteralsAndKeywords::IntegerLit(val)), loc),
+                ))
+            }
             Some(TokenWithLoc {
                 token: Token::FloatLit(val),
                 loc,
